@@ -2,6 +2,7 @@ import BSModel.Proofs.Entities
 import BSModel.Proofs.Html5
 import BSModel.Proofs.Html5Fix
 import BSModel.Proofs.Html5Agree
+import BSModel.Proofs.Html5End
 import BSModel.Proofs.EntitiesPopulate
 import BSModel.Gen.EntitiesSource
 import BSModel.Model.EntitiesGlue
@@ -219,6 +220,51 @@ example : substHtml5 BS.Gen.C09.htmlTable (ofS "&lt x") = ofS "&amp;lt x" ∧
     substHtml5 BS.Gen.C09.htmlTable (ofS "&a-b;") = ofS "&amp;a-b;" ∧
     substHtml5 BS.Gen.C09.htmlTable (ofS "&#x") = ofS "&amp;#x" ∧
     substHtml5 BS.Gen.C09.htmlTable (ofS "&lol & &y=2&1") = ofS "&lol & &y=2&1" := by
+  decide +kernel
+
+/-! ### reading contexts
+
+`readText` reads text that is **followed by a tag** (element text before its end tag or before a child; top-level text before
+any later markup): the reader every theorem above is about, and the one proved equal to the tokenizer (`…_tokenized`).
+`readTextEnd` reads text that is **the last thing of the document** (top-level text with nothing after it, or text in an
+element that is never closed), where html.parser treats an unterminated reference specially at `close()`. It is a reader
+model compared with the real parser on every generated case; its equality with `Tokenizer.run` on a bare text is NOT
+proved (stated only). The theorems below cover this second context, for all strings; attribute values always sit inside a
+tag and have the one context. `substHtml5Mid` is the function after the first repair (/repo 3ee7146), which does not
+round-trip in the second context; `substHtml5` includes the end-of-document repair
+(fixes/C09-html5-ampersand-eof.diff: an `&` is also escaped when its name runs to the end of the string and is a single
+letter or has a known entity name before its last `-`/`.`). -/
+
+/-- `minimal`, text at the very end of the document. -/
+theorem xml_text_roundtrip_end (X : List (Nat × PStr)) (T : Tbl) (h : XmlOK X T = true) (late : Bool) (s : PStr) :
+    readTextEnd T late 0 (substXml X s) = s :=
+  html_text_roundtrip_end_gen T late xmlParticles (xmlRep X) (repOK_xml h) xml_covers.1 s
+
+/-- `html`, text at the very end of the document. -/
+theorem html_text_roundtrip_end (T : Tbl) (h : TblOK T = true) (late : Bool) (s : PStr) :
+    readTextEnd T late 0 (substHtml T s) = s :=
+  let ⟨h1, _, _, _, h38⟩ := tblOK_amp h
+  html_text_roundtrip_end_gen T late T.particlesAmp (htmlRep T) h1 h38 s
+
+/-- `html5`, text at the very end of the document: **every** string reads back as the original there too. -/
+theorem html5_text_roundtrip_end (T : Tbl) (h : TblOK T = true) (h5 : Html5FixOK T = true) (late : Bool) (s : PStr) :
+    readTextEnd T late 0 (substHtml5 T s) = s :=
+  let ⟨hk, _, hamp, _⟩ := html5FixOK_spec h5
+  fix_text_roundtrip_end_gen T late T.particles (htmlRep T) (tblOK_plain h).1 hk hamp s
+
+example : readTextEnd BS.Gen.C09.htmlTable false 0 (substHtml5 BS.Gen.C09.htmlTable (ofS "x &Lt-x &y &a-b &Lt-x")) =
+    ofS "x &Lt-x &y &a-b &Lt-x" := html5_text_roundtrip_end _ tblOK_live html5FixOK_live _ _
+
+/-- Refutation for the first repair alone (finding `C09-html5-eof-entity-prefix`): at the very end of the document
+    `&Lt-x` is written unchanged and read back as `≪-x`, and `x&a` is read back as `xa`; inside an element both are fine;
+    the extended repair escapes both. -/
+theorem html5_mid_not_reversible_at_end :
+    substHtml5Mid BS.Gen.C09.htmlTable (ofS "&Lt-x") = ofS "&Lt-x" ∧
+    readTextEnd BS.Gen.C09.htmlTable false 0 (substHtml5Mid BS.Gen.C09.htmlTable (ofS "&Lt-x")) = [8810] ++ ofS "-x" ∧
+    readTextEnd BS.Gen.C09.htmlTable false 0 (substHtml5Mid BS.Gen.C09.htmlTable (ofS "x&a")) = ofS "xa" ∧
+    readText BS.Gen.C09.htmlTable false 0 (substHtml5Mid BS.Gen.C09.htmlTable (ofS "&Lt-x")) = ofS "&Lt-x" ∧
+    substHtml5 BS.Gen.C09.htmlTable (ofS "&Lt-x") = ofS "&amp;Lt-x" ∧
+    substHtml5 BS.Gen.C09.htmlTable (ofS "x&a") = ofS "x&amp;a" := by
   decide +kernel
 
 /-! ### 4.13.0 as shipped (`substHtml5Old`) -/
